@@ -297,5 +297,21 @@ def run(F, rep, tier):
         else:
             rep.ok('R2.6', p_, 'no clone of the cell content before set_index')
     rep.floor('R2.6', 'write closures calling set_index', n26, 4)
+    # ---------------- R2.9
+    rep.rule('R2.9', 'Env::modify_ident hands its callback a reference into the variable\'s own cell: nothing in it (or its closures) clones '
+             'an Obj - a copy taken out for the duration of the callback is a second holder of the payload, so the first make_mut inside '
+             'pop / remove / indexed op-assign copies the whole collection on every statement')
+    mi = 'core::Env::modify_ident'
+    if not F.has_fn(mi):
+        rep.error('R2.9', mi + ' missing')
+    else:
+        from .core import family_bodies as _fb
+        cl9 = [c for b9 in _fb(F, mi) for c in b9.calls
+               if c.target.endswith('::clone') and any(str(g) in ('core::Obj', '&core::Obj', 'std::cell::Ref<\'_, core::Obj>', 'std::cell::RefMut<\'_, core::Obj>') or str(g).endswith('core::Obj>') for g in (c.callee.get('g') or []))]
+        if cl9:
+            rep.viol('R2.9', mi + '|clones-value', 'modify_ident clones the variable\'s value (%s): mutation through it is no longer in place' % cl9[0].target, cl9[0].loc())
+        else:
+            rep.ok('R2.9', mi, 'no Obj clone on the mutation path')
+
     rep.undecided += ['bytes allocated as a function of n and k', 'copy-at-most-once-per-holder']
     return META
